@@ -104,6 +104,13 @@ def translate_expression(expr, env: Env) -> TExp:  # noqa: C901
                 inner_type,
                 [Symbol(f"{sn}.{i}") for i in range(inner_type.BIT_SIZE)],
             )
+        elif len(get_args(inner_type)) > 0:
+            # An element that is itself a tuple: all the bits under its name
+            root_bits = env[sn.split(".")[0]].bitvec
+            return (
+                inner_type,
+                [Symbol(b) for b in root_bits if b.startswith(f"{sn}.")],
+            )
         else:
             return (inner_type, Symbol(sn))
 
